@@ -1,14 +1,40 @@
-(** Property C02 -- geometry invariants (PARTIAL: the resize / reflow core; see DESIGN.md).
+(** Property C02 -- screen geometry invariants hold after every public call.
     Only pinned statements, closed by [exact], with their assumptions printed. *)
-From Avt Require Import Model.Vt Proofs.Inv Proofs.ReflowCore Proofs.Resize.
+From Avt Require Import Oracles.Step Proofs.Inv Proofs.ReflowCore Proofs.Resize Proofs.InvTerm Proofs.InvStep.
 
-(** every row produced by reflow has exactly the new width; the last row is not soft-wrapped *)
+(** the executable geometry statement (size, view = tail of lines, every line `cols` cells, >= rows lines, last line unwrapped, cursor row < rows, col <= cols with col = cols exactly when wrap-pending, dirty vector length, parked buffer well-formed) follows from the invariant *)
+Theorem C02_state : forall v, Inv v -> holds_C02_state v = true.
+Proof. exact C02_state_holds. Qed.
+Check C02_state : forall v, Inv v -> holds_C02_state v = true.
+Print Assumptions C02_state.
+
+(** ... hence holds after every call of every session *)
+Theorem C02_run : forall c r l ops v, 1 <= c -> 1 <= r -> Forall op_ok ops -> runM (vt_new c r l) ops = Ok v -> holds_C02_state v = true.
+Proof. exact C02_run. Qed.
+Check C02_run : forall c r l ops v, 1 <= c -> 1 <= r -> Forall op_ok ops -> runM (vt_new c r l) ops = Ok v -> holds_C02_state v = true.
+Print Assumptions C02_run.
+
+(** changed-line indices strictly increasing and < rows; size() is the size last requested *)
+Theorem C02_call : forall v o v' out, Inv v -> op_ok o -> stepM v o = Ok (v', out) -> match o with Feed _ => True | _ => holds_C02_call o v' (o_lines out) = true end.
+Proof. exact C02_call_holds. Qed.
+Check C02_call : forall v o v' out, Inv v -> op_ok o -> stepM v o = Ok (v', out) -> match o with Feed _ => True | _ => holds_C02_call o v' (o_lines out) = true end.
+Print Assumptions C02_call.
+
+Theorem C02_inductive : forall v o, Inv v -> op_ok o -> exists v' out, stepM v o = Ok (v', out) /\ Inv v'.
+Proof. exact stepM_Inv. Qed.
+Check C02_inductive : forall v o, Inv v -> op_ok o -> exists v' out, stepM v o = Ok (v', out) /\ Inv v'.
+Print Assumptions C02_inductive.
+
+Theorem C02_initial : forall c r l, 1 <= c -> 1 <= r -> Inv (vt_new c r l).
+Proof. exact vt_new_Inv. Qed.
+Check C02_initial : forall c r l, 1 <= c -> 1 <= r -> Inv (vt_new c r l).
+Print Assumptions C02_initial.
+
 Theorem C02_reflow_widths : forall ls c, 1 <= c -> exists out, reflowM ls c = Ok out /\ Forall (LineInv c) out /\ (ls <> [] -> out <> []) /\ (last_not_wrapped ls -> last_not_wrapped out).
 Proof. exact reflow_total. Qed.
 Check C02_reflow_widths : forall ls c, 1 <= c -> exists out, reflowM ls c = Ok out /\ Forall (LineInv c) out /\ (ls <> [] -> out <> []) /\ (last_not_wrapped ls -> last_not_wrapped out).
 Print Assumptions C02_reflow_widths.
 
-(** after Buffer::resize: every line has the new width, at least `rows` lines, last line not wrapped, cursor row inside the screen *)
 Theorem C02_resize_geometry : forall b nc nr cc cr, BInv b -> 1 <= nc -> 1 <= nr -> (nc = bcols b -> cr < Nat.max (brows b) nr) -> exists b' cc' cr', buf_resize b nc nr cc cr = Ok (b', (cc', cr')) /\ BInv b' /\ bcols b' = nc /\ brows b' = nr /\ blimit b' = blimit b /\ trim_needed b' = true /\ cr' < nr /\ (nc <> bcols b -> cc' < nc) /\ (nc = bcols b -> cc' = cc).
 Proof. exact buf_resize_ok'. Qed.
 Check C02_resize_geometry : forall b nc nr cc cr, BInv b -> 1 <= nc -> 1 <= nr -> (nc = bcols b -> cr < Nat.max (brows b) nr) -> exists b' cc' cr', buf_resize b nc nr cc cr = Ok (b', (cc', cr')) /\ BInv b' /\ bcols b' = nc /\ brows b' = nr /\ blimit b' = blimit b /\ trim_needed b' = true /\ cr' < nr /\ (nc <> bcols b -> cc' < nc) /\ (nc = bcols b -> cc' = cc).
